@@ -51,14 +51,14 @@ class Harness:
     pass
 
   # -- one execution ----------------------------------------------------------
-  def run_once(self, prefix, keep_events=False):
+  def run_once(self, prefix, keep_events=False, cache=None):
     self.reset()
     body = self.setup()
     snap = self.snapshot
     return sched.execute(body, prefix, mode=self.mode, max_steps=self.max_steps,
                          keep_events=keep_events or self.keep_events,
                          snapshot=snap, tick=self.tick,
-                         max_clock=self.max_clock)
+                         max_clock=self.max_clock, cache=cache)
 
 
 class Explorer:
@@ -79,12 +79,17 @@ class Explorer:
 
   # -- running one prefix --------------------------------------------------------
   def _run(self, prefix):
-    res = self.h.run_once(prefix)
+    res = self.h.run_once(prefix, cache=self.cache)
     self.execs += 1
     st = self.stats
-    st.traces += 1
     st.transitions += res.steps
     st.states |= res.states
+    if res.pruned:
+      # the execution reached an already expanded node: nothing new below it
+      self.pruned += 1
+      st.count('executions_cut_at_cached_node')
+      return res
+    st.traces += 1
     if res.failure and res.failure[0] == 'divergence':
       raise sched.Divergence(f'{self.h.name} {self.h.params}: '
                              f'{res.failure[1]} prefix={prefix}')
@@ -115,15 +120,6 @@ class Explorer:
     out = []
     for i in range(start, len(res.points)):
       p = res.points[i]
-      if self.cache is not None and p.key is not None:
-        prev = self.cache.get(p.key)
-        if prev is not None and any(
-            u[0] <= p.used[0] and u[1] <= p.used[1] for u in prev):
-          # same Mazurkiewicz trace, same running thread, at least as much
-          # budget left: this node's whole subtree has been expanded already
-          self.pruned += 1
-          break
-        self.cache.setdefault(p.key, []).append(p.used)
       budget, costs = p.costs
       if budget == 0 and self.bounds[0] < 0:
         continue      # default schedule only: no scheduling alternatives at all
